@@ -229,11 +229,21 @@ class SyncDUL:
         dul.artim_timer = self.timer
         self.transitions = []
         self.events = []
+        # harness observers must run before the built-in logging handlers (a raising notification handler stops the
+        # remaining handlers of that event): unbind the defaults, bind ours, re-bind the defaults behind them
+        from pynetdicom import _handlers as H
+
+        defaults = [(evt.EVT_DIMSE_RECV, H.standard_dimse_recv_handler), (evt.EVT_DIMSE_SENT, H.standard_dimse_sent_handler),
+                    (evt.EVT_PDU_RECV, H.standard_pdu_recv_handler), (evt.EVT_PDU_SENT, H.standard_pdu_sent_handler)]
+        for e, f in defaults:
+            assoc.unbind(e, f)
+        self._rebind_defaults = lambda: [assoc.bind(e, f) for e, f in defaults]
         assoc.bind(evt.EVT_FSM_TRANSITION, lambda e: self.transitions.append((e.current_state, e.fsm_event, e.action, e.next_state)))
         assoc.bind(evt.EVT_PDU_RECV, lambda e: self.events.append(("pdu_recv", e.pdu)))
         assoc.bind(evt.EVT_PDU_SENT, lambda e: self.events.append(("pdu_sent", e.pdu)))
         assoc.bind(evt.EVT_CONN_CLOSE, lambda e: self.events.append(("conn_close", None)))
         assoc.bind(evt.EVT_CONN_OPEN, lambda e: self.events.append(("conn_open", None)))
+        self.rebind_defaults = self._rebind_defaults
         self.dimse_calls = []
         if record_dimse:
             assoc.dimse.receive_primitive = lambda p: self.dimse_calls.append(p)
@@ -242,6 +252,20 @@ class SyncDUL:
             while not dul.event_queue.empty():
                 dul.event_queue.get(False)
             dul.state_machine.current_state = state
+
+    def connect_now(self):
+        """Requestor mode: perform the transport connect that AE-1 would have issued (states >= Sta5)."""
+        from pynetdicom import pdu_primitives as P
+        from pynetdicom.transport import AddressInformation, T_CONNECT
+
+        rqp = P.A_ASSOCIATE()
+        rqp.called_presentation_address = AddressInformation("127.0.0.1", 11112)
+        self.sock.connect(T_CONNECT(rqp))
+        self.raw = self.sock.socket
+        while not self.dul.to_provider_queue.empty():
+            self.dul.to_provider_queue.get(False)
+        self.events.clear()
+        return self.raw
 
     def _hook(self):
         self.iterations += 1
